@@ -138,6 +138,32 @@ def check_program(ctx, prog, script, rng, n_data=2, case_extra=None):
                 break
         if outcome != 'ok':
             break
+    # ---- "a feasible period t" as the built model itself defines it (its LAGS / LEADS): at its own first and last
+    #      feasible periods every read still lands on exactly t-lag / t+lead inside the span
+    if outcome == 'ok' and 'block' not in ex.features and n >= lags + leads + 1 and (Model.LAGS < lags or Model.LEADS < leads):
+        own = sorted({Model.LAGS, n - 1 - Model.LEADS} - set(ref.feasible_positions(n, lags, leads)))
+        for p in own:
+            if not 0 <= p < n:
+                continue
+            model = Model(list(span) if not isinstance(span, range) else span)
+            data = ref.make_data(names, n, rng, 'positive')
+            for nm in names:
+                model.__dict__['_' + nm][:] = data[nm]
+            log = rec.install(model)
+            err = None
+            with ref.quiet():
+                try:
+                    model._evaluate(p)
+                except Exception as e:
+                    err = e
+            log.enabled = False
+            ctx.count('own_feasible_periods_checked')
+            outside = [(nm, int(i)) for k, nm, i in log if k in ('r', 'w') and isinstance(i, (int, np.integer)) and not 0 <= int(i) < n]
+            if outside or isinstance(err, IndexError):
+                ctx.violation('feasible-period-reads-outside-span', f'the built model has LAGS={Model.LAGS}, LEADS={Model.LEADS}, so period {p} of {n} is feasible by its own account, but one pass there '
+                              f'addresses {outside[:4] or err!r}: not the lag/lead written (the script needs lags={lags}, leads={leads})', case)
+                outcome = 'fail'
+                break
     # ---- normalised equation text ------------------------------------------------------
     if outcome == 'ok':
         check_equation_texts(ctx, prog, symbols, ex, span, names, rng, case)
